@@ -108,3 +108,36 @@ func verifReadersHoldTheTransaction(n uint8, first uint8, ops []uint8) bool {
 	}
 	return released == 1
 }
+
+// verifUndoHooksRunLastFirst (ghost scenario, bounded): the undo hooks of a transaction run exactly once each, the one
+// registered last first - a later step may have been built on an earlier one.
+func verifUndoHooksRunLastFirst(n uint8) bool {
+	verifRegister.Do(func() { sql.Register("verif-noop", verifDriver{}) })
+	sdb, err := sql.Open("verif-noop", "")
+	if err != nil {
+		return false
+	}
+	defer sdb.Close()
+	tx, err := verifDatabase{sdb}.BeginTx(context.Background(), nil)
+	if err != nil {
+		return false
+	}
+	k := int(n)%6 + 1
+	var order []int
+	for i := 0; i < k; i++ {
+		i := i
+		tx.OnRollback(func(context.Context) error { order = append(order, i); return nil })
+	}
+	if err := tx.Rollback(context.Background()); err != nil {
+		return false
+	}
+	if len(order) != k {
+		return false
+	}
+	for j, v := range order {
+		if v != k-1-j {
+			return false
+		}
+	}
+	return true
+}
